@@ -71,6 +71,16 @@ theorem c13_reflect_dop853 {n : Nat} (Kc : Nat → Vector K n) (y k1 : Vector K 
       = (Gen.Dop853.stages (f := openF Kc) (y := y) (h := h) (k1 := k1) (x := x)).calls.map mirror :=
   dop853_stages_reflect Kc y k1 x h
 
+/-- the automatic first step under time reflection: for the reflected problem (`f̃ = −f`, `x ↦ −x`, direction reversed)
+    `hinit` returns the negated step and probes the mirrored point with the same state — every branch of the routine
+    (degenerate norms, the `hmax` clamp, the second-derivative estimate), every dimension -/
+theorem c13_reflect_hinit {n : Nat} (F1 atol rtol y f0 : Vector K n) (hmax posneg x : K) (iord : Nat) (hp : posneg ≠ 0) :
+    (Gen.Common.hinit (f := fun _ _ _ => vneg F1) (atol := atol) (rtol := rtol) (y := y) (f0 := vneg f0) (hmax := hmax) (posneg := -posneg) (x := -x) (iord := iord)).1
+      = -(Gen.Common.hinit (f := fun _ _ _ => F1) (atol := atol) (rtol := rtol) (y := y) (f0 := f0) (hmax := hmax) (posneg := posneg) (x := x) (iord := iord)).1
+    ∧ (Gen.Common.hinit (f := fun _ _ _ => vneg F1) (atol := atol) (rtol := rtol) (y := y) (f0 := vneg f0) (hmax := hmax) (posneg := -posneg) (x := -x) (iord := iord)).2
+      = (Gen.Common.hinit (f := fun _ _ _ => F1) (atol := atol) (rtol := rtol) (y := y) (f0 := f0) (hmax := hmax) (posneg := posneg) (x := x) (iord := iord)).2.map mirror :=
+  hinit_reflect F1 atol rtol y f0 hmax posneg x iord hp
+
 theorem c13_reflect_guards (x h xend posneg u : K) :
     (Gen.Dopri5.lastGuard (-x) (-h) (-xend) (-posneg) ↔ Gen.Dopri5.lastGuard x h xend posneg) ∧
     (Gen.Dop853.lastGuard (-x) (-h) (-xend) (-posneg) ↔ Gen.Dop853.lastGuard x h xend posneg) ∧
